@@ -1003,6 +1003,9 @@ func (ex *Exec) execFor(st *State, s *ast.ForStmt, label string) flow {
 	}
 	ex.loopOrd++
 	ord := ex.loopOrd
+	if ex.discovery == 0 && ord > ex.loopOrdMax {
+		ex.loopOrdMax = ord
+	}
 	invs, decr := ex.loopInvariants(ord)
 	ls := &loopSpec{ord: ord, invs: invs, decr: decr, pos: s.Pos(), scopeP: s.Body.Lbrace + 1}
 	if len(invs) == 0 && ex.discovery == 0 {
@@ -1087,6 +1090,9 @@ func (ex *Exec) execFor(st *State, s *ast.ForStmt, label string) flow {
 func (ex *Exec) execRange(st *State, s *ast.RangeStmt, label string) flow {
 	ex.loopOrd++
 	ord := ex.loopOrd
+	if ex.discovery == 0 && ord > ex.loopOrdMax {
+		ex.loopOrdMax = ord
+	}
 	invs, decr := ex.loopInvariants(ord)
 	ls := &loopSpec{ord: ord, invs: invs, decr: decr, pos: s.Pos(), scopeP: s.Body.Lbrace + 1}
 	if len(invs) == 0 && ex.discovery == 0 {
